@@ -216,6 +216,8 @@ class Translator:
         if mname in self.cls.decorated:
             poll = mname.replace("on_enter_", "do_repeat_")
             body = f"(.doRepeat {body} {self.msg(poll)})"
+            fd = self.ctx.get("repeat_first_delay")
+            self.ctx["delays"].setdefault(self.ctrl, []).append((mname, poll, "@do_repeat", int(fd * 2) if isinstance(fd, (int, float)) and float(fd * 2).is_integer() else None))
         for i, (attr, vals) in reversed(list(enumerate(self.locals_alloc))):
             body = f"(.forSetting {i} {L_list([L_int(v) for v in vals])} {body})"
         return body
@@ -966,6 +968,17 @@ def class_consts():
     return out
 
 
+def repeat_first_delay(repo):
+    """the delay with which the `@do_repeat()` decorator of controller/actor.py arms the first poll (None = not a literal)"""
+    tree = ast.parse(open(os.path.join(repo, "controller", "actor.py")).read())
+    for fn in ast.walk(tree):
+        if isinstance(fn, ast.FunctionDef) and fn.name == "do_repeat":
+            calls = [n for n in ast.walk(fn) if isinstance(n, ast.Call) and isinstance(n.func, ast.Attribute) and n.func.attr == "do_delay"]
+            if len(calls) == 1 and calls[0].args and isinstance(calls[0].args[0], ast.Constant) and isinstance(calls[0].args[0].value, (int, float)):
+                return calls[0].args[0].value
+    return None
+
+
 def generate(repo=None):
     from sim.system import PoolSystem, bootstrap
 
@@ -980,6 +993,7 @@ def generate(repo=None):
         "names": Names(["halt", "<none>"]),
         "vars": {}, "msgs": {}, "tells": [], "asks": [], "published": {}, "delays": {},
         "leaves": {}, "states": {}, "triggers": {}, "settings": small_settings(classes), "class_consts": class_consts(),
+        "repeat_first_delay": repeat_first_delay(repo),
         "proxy_attrs": {"Disinfection": {"__ph": "PWMph", "__cl": "PWMcl", "__sensors_writer": "DisinfectionWriter", "__sensors_reader": "DisinfectionReader"},
                         "Filtration": {"__temperature": "TemperatureReader"}, "Heating": {"__temperature": "TemperatureReader"},
                         "Swim": {"__temperature": "TemperatureReader"}, "Heater": {"__temperature": "TemperatureReader"}},
@@ -1244,6 +1258,27 @@ def emit(ctx, out, path):
                 dv = f"(.unknown {lean_str(srcd)})"
             dl.append(f"({lean_str(h)}, {lean_str(m)}, {dv})")
         lines.append(f"def {lc}Delays : List (String × String × Dur) := {L_list(dl)}")
+        # (phase the arming handler ends in, armed message) -> the delays of every do_delay site that can arm it there
+        dur_at = {}
+        for (h, m, srcd, val) in ctx["delays"].get(c, []):
+            if isinstance(val, int):
+                dv = f"(.halfSeconds {val})"
+            elif isinstance(val, str):
+                dv = f"(.setting {lean_str(val[8:])})"
+            else:
+                dv = f"(.unknown {lean_str(srcd)})"
+            ph = None
+            for pre in ("on_enter_", "do_repeat_"):
+                if h.startswith(pre):
+                    ph = h[len(pre):]
+            ls = [i for i, l in enumerate(leaves) if ph is not None and (l == ph or l.startswith(ph + "_"))]
+            if not ls:
+                ls = list(range(len(leaves)))
+            for i in ls:
+                lst = dur_at.setdefault((i, msgs.id(m)), [])
+                if dv not in lst:
+                    lst.append(dv)
+        lines.append(f"def {lc}DurAt : List (Nat × Nat × List Dur) := " + L_list(["(%d, %d, %s)" % (i, m, L_list(v)) for (i, m), v in sorted(dur_at.items())]))
         # named indices (a renamed/removed state, message or device makes the property files fail to build)
         def ident(x):
             return re.sub(r"[^A-Za-z0-9_]", "_", x)
